@@ -64,10 +64,13 @@ pub fn gen_doc(r: &mut Rng) -> J {
                     let v = r.range(0, 3);
                     if v == 0 && r.chance(1, 3) {
                         J::Float(-0.0)
-                    } else if r.chance(1, 2) {
+                    } else if r.chance(1, 3) {
                         J::Int(v)
-                    } else {
+                    } else if r.chance(1, 2) {
                         J::Float(v as f64)
+                    } else {
+                        // fractions that do not add up exactly: the order of additions shows
+                        J::Float(v as f64 + *r.pick(&[0.1, 0.7, 0.001, 1e-9, 0.3333333333333333]))
                     }
                 })
                 .collect();
@@ -365,6 +368,14 @@ pub fn gen_history(seed: u64) -> Vec<Op> {
             Plan {
                 n: *r.pick(&[1, 1, 1, 2, 2, 3, 4, 6]),
                 kind: r.below(FAULT_KINDS.len()) as u8,
+                stack_kib: 0,
+            }
+        } else if r.chance(1, 40) {
+            // the same call, made from much deeper in the caller's stack
+            Plan {
+                n: 0,
+                kind: 0,
+                stack_kib: *r.pick(&[1200, 2500, 3500]),
             }
         } else {
             Plan::default()
@@ -640,6 +651,7 @@ pub fn gen_history(seed: u64) -> Vec<Op> {
                     let plan = Plan {
                         n: *r.pick(&[1, 1, 2, 2, 3, 5]),
                         kind: r.below(2) as u8,
+                        stack_kib: 0,
                     };
                     let id = m.next_id;
                     m.next_id += 2;
